@@ -30,7 +30,13 @@ def plan(tier, seed):
             dict(kind="sink", L=5 if quick else 6, flags=1),
             # fixed long arrival orders: a segment far ahead first, then the gap filled in; everything in reverse
             dict(kind="sink", script=[127] + list(range(127))), dict(kind="sink", script=[300, 299] + list(range(299))),
-            dict(kind="sink", script=list(range(199, -1, -1)))]
+            dict(kind="sink", script=list(range(199, -1, -1))),
+            # many holes at once (round 5: a reassembly list cut to a fixed number of ranges): 100 / 67 disjoint ranges
+            # outstanding, then filled in forwards, backwards, and with every arrival duplicated
+            dict(kind="sink", script=list(range(1, 200, 2)) + list(range(0, 200, 2))),
+            dict(kind="sink", script=list(range(198, 0, -2)) + list(range(199, -1, -2)) + [0]),
+            dict(kind="sink", script=list(range(2, 200, 3)) + [k for i in range(67) for k in (3 * i, 3 * i + 2, 3 * i + 1)]),
+            dict(kind="sink", flags=1, script=[17, 15, 13, 11, 9, 7, 5, 3, 1, 19, 21, 23, 0, 2, 4, 6, 8, 10, 12, 14, 16, 18, 20, 22, 24])]
     for cc in ("reno", "cubic"):
         for delays in ([1, 1], [1, 3], [3, 5]):
             for est in (0.25, 0.5, 4):
@@ -67,9 +73,14 @@ def plan(tier, seed):
             for size in (300, 1500):
                 for pat in ([0], [0] * 17 + [1], [0] * 23 + [2] + [0] * 7 + [1], [0] * 40 + [1, 1, 0, 0, 0, 2]):
                     cfgs.append(dict(kind="e2e", cc=cc, delays=delays, est=est, size=size, K=10 ** 6, long={"pattern": pat}))
+    # a long outage: the first 11 (12) transmissions are all lost (the explicit horizon of 4000 s allows no more), so one segment is retransmitted a dozen times in a row and the
+    # RTO doubles a dozen times (round 5: a backoff that stops re-arming the timer at some ceiling)
+    for cc in ("reno", "cubic"):
+        for (size, est, out) in ((1, 0.5, 11), (3, 0.5, 11), (2, 0.25, 12)):
+            cfgs.append(dict(kind="e2e", cc=cc, delays=[1, 1], est=est, size=size, K=10 ** 6, long={"pattern": [1] * out + [0] * 200}))
     ndebug = explore.add_debug_variants(cfgs)      # the same with sender and sink constructed with debug=True
     return {"cfgs": cfgs, "budget": 3 if quick else 4,
-            "bound": ("%d configurations repeated with debug=True; " % ndebug) + "48 long flows (300/1500 MSS) under periodic fault patterns; sink: sequences of <=%d segments; end to end: flows of 1..%d MSS, path delays (1,1),(1,3),(3,5),(.3,.1),(.1,.2),(0,0), initial RTT estimate .1/.25/.3/.5/.7/4, "
+            "bound": ("%d configurations repeated with debug=True; " % ndebug) + "48 long flows (300/1500 MSS) under periodic fault patterns, 6 short flows through an outage of 11/12 consecutive losses; sink: sequences of <=%d segments + 7 fixed long arrival orders (up to 100 holes outstanding); end to end: flows of 1..%d MSS, path delays (1,1),(1,3),(3,5),(.3,.1),(.1,.2),(0,0), initial RTT estimate .1/.25/.3/.5/.7/4, "
                      "<=%d faults (drop, or delivery delayed by 4) among the first %d data / ACK transmissions" % (6 if quick else 7, 6 if quick else 8, 3 if quick else 4, 12 if quick else 20)}
 
 
